@@ -316,6 +316,36 @@ def run(ctx):
         if not (legacy == l and l == legacy) or canon(list(legacy.plaquettes)) != canon(list(l.plaquettes)):
             ctx.impl_violation(f"{name}: lattice restored from a legacy dict state differs from its original", dict(case=name))
         ctx.case(("legacy", name))
+    # ---- genuine legacy pickles (default pickling of __dict__, as before __getstate__ existed) taken at every cache state, restored through pickle, then
+    #      every public operation on the restored lattice against the same lattice built directly
+    CACHE_STATES = {"fresh": [], "plaquettes-only": ["plaquettes"], "tables-only": ["vertices.adjacent_edges", "edges.adjacent_edges"],
+                    "plaquettes+their-tables": ["plaquettes", "vertices.adjacent_plaquettes", "edges.adjacent_plaquettes"],
+                    "everything": ["plaquettes", "vertices.adjacent_plaquettes", "edges.adjacent_plaquettes", "vertices.adjacent_edges", "edges.adjacent_edges"]}
+    saved_getstate = Lattice.__getstate__
+    for name, l0 in panel_set[: (6 if quick else 30)]:
+        for cs, attrs in CACHE_STATES.items():
+            l = Lattice(*[x.copy() for x in zoo.raw(l0)])
+            try:
+                for a in attrs:
+                    touch(l, a)
+            except Exception:
+                continue
+            try:
+                del Lattice.__getstate__
+                try:
+                    blob = pickle.dumps(l, protocol=int(rng.integers(2, 6)))
+                finally:
+                    Lattice.__getstate__ = saved_getstate
+                r = pickle.loads(blob)
+            except Exception as ex:
+                ctx.impl_violation(f"{name}: a legacy (dict-state) pickle taken in cache state '{cs}' cannot be restored: {type(ex).__name__}: {ex}", dict(case=name, cache_state=cs, lattice=zoo.lat_to_json(l0)))
+                continue
+            a, b = run_panel(Lattice(*[x.copy() for x in zoo.raw(l0)])), run_panel(r)
+            bad = [op for op in a if a[op] != b[op]]
+            if bad or not (r == l0 and l0 == r):
+                ctx.impl_violation(f"{name}: lattice restored from a legacy (dict-state) pickle taken in cache state '{cs}' behaves differently from its original in {bad[:4] or '=='}"
+                                   f" ({b[bad[0]] if bad else ''} instead of {str(a[bad[0]])[:80] if bad else ''})", dict(case=name, cache_state=cs, ops=bad[:6], lattice=zoo.lat_to_json(l0)))
+            ctx.case(("legacy-pickle", name, cs))
     import os
     data = core.REPO / "tests" / "data"
     for f in ("pickled_lattice_V0.pickle", "pickled_lattice_V1.pickle"):
